@@ -24,7 +24,12 @@ Expected(k) == CASE k \in {"tcp", "uds", "tls"} -> "connect"
 
 TInit == tid \in 1..Len(Traces) /\ l = 1
 Op == /\ l <= Len(Tr.ops)
-      /\ LET o == Tr.ops[l] IN o.t = (IF Tr.tmo THEN Expected(o.k) ELSE "none")
+      \* (per_op: several calls with DIFFERENT settings share the log; each operation says whether the
+      \*  call that issued it configured timeouts, and its value was named with THAT call's table -
+      \*  a value configured by another call reads "foreign")
+      /\ LET o == Tr.ops[l]
+             configured == IF "per_op" \in DOMAIN Tr THEN o.cfg ELSE Tr.tmo
+         IN o.t = (IF configured THEN Expected(o.k) ELSE "none")
       /\ l' = l + 1 /\ UNCHANGED tid
 (* the call itself must have gone through: the log is complete *)
 Done == l = Len(Tr.ops) + 1 /\ Tr.ret = "ok" /\ l' = l + 1 /\ UNCHANGED tid
